@@ -33,7 +33,8 @@ Step ==
     /\ LET e == Trace[l] c == e.case msg == e.msg
            Runs == DOMAIN e.runs
            Ok(k) == e.runs[k].err = ""
-           cf == ConflictFree(msg.ents)
+           fused == "fuse" \in DOMAIN msg       \* an entity with several payloads: only reading-independent clauses apply
+           cf == ConflictFree(msg.ents) /\ ~fused
            ForRuns(P(_, _)) == \A k \in Runs : Ok(k) => P(EntsOf(msg, e.runs[k]), e.runs[k].res)
        IN
        /\ Check("C05.parses", c, l, \A k \in Runs : Ok(k))
@@ -55,8 +56,9 @@ Step ==
        /\ Check("C02.vehicle-trip-field", c, l, cf => ForRuns(LAMBDA ents, r : C02_VehicleTripField(ents, r)))
        /\ Check("C02.alerts", c, l, cf => ForRuns(LAMBDA ents, r : C02_Alerts(ents, r)))
        /\ Check("C02.alert-selectors", c, l,
-                cf => ForRuns(LAMBDA ents, r : AlertClauses(ents, r, LAMBDA a, ies, rr : C12_UsefulSelectorsInOrder(a, ies))))
+                cf => ForRuns(LAMBDA ents, r : AlertClauses(ents, r, LAMBDA a, ies, rr : C12_UsefulSelectorsInOrder(a, ies) /\ C12_Fallback(a, ies))))
        /\ Check("C04.links", c, l, cf => ForRuns(LAMBDA ents, r : C04_Links(ents, r)))
+       /\ Check("C04.links-mutual", c, l, ConflictFree(msg.ents) => ForRuns(LAMBDA ents, r : C04_LinksMutual(r)))
        /\ Check("C07.order-independent", c, l,
                 cf => \A k \in Runs : (Ok(k) /\ Ok(1) /\ e.runs[k].zone = e.runs[1].zone) =>
                          C07_SameTripsVehiclesLinks(e.runs[k].res, e.runs[1].res))
